@@ -134,7 +134,7 @@ def run_scripts_with_oracle(check, real, scripts_iter, stats, violations, max_vi
         n, divs = runmod.compare(batch_s, batch_o)
         stats.evaluations += n
         for d in divs:
-            if len(violations) < max_viol:
+            if sum(1 for v in violations if v.kind == "correspondence") < max_viol:
                 violations.append(Violation("correspondence", "code != model", d.script, d.index, d.real, d.model,
                                             failing_input=False))
         batch_s.clear()
@@ -146,7 +146,9 @@ def run_scripts_with_oracle(check, real, scripts_iter, stats, violations, max_vi
         batch_o.append(outs)
         if len(batch_s) >= 4000:
             flush()
-        if len(violations) >= max_viol:
+        # a broken correspondence alone does not end the run: the search for an input on which the
+        # property itself fails (direct oracle) goes on over the whole volume
+        if sum(1 for v in violations if v.kind == "oracle") >= 3:
             break
     flush()
 
@@ -174,7 +176,7 @@ class OracleReal:
                 msg = self.check.oracle(self.inner, line, out, pre)
             except Exception as exc:  # noqa: BLE001
                 msg = "oracle raised %s: %s" % (type(exc).__name__, exc)
-            if msg and len(self.violations) < 5:
+            if msg and sum(1 for v in self.violations if v.kind == "oracle") < 5:
                 self.violations.append(Violation("oracle", msg, list(self.history), len(self.history) - 1, out, None))
         return out
 
